@@ -60,3 +60,29 @@ Print Assumptions src_tie_scale_add.
 Theorem src_tie_ymd_ord : forall y m d r, ymd_ord64 y m d = OK r -> r = tr_ymd_ord y m d.
 Proof. exact tr_ymd_ord_eq. Qed.
 Print Assumptions src_tie_ymd_ord.
+
+From CCTZ Require Import Source64 Source64Proofs Source64Cor.
+
+(* SOURCE-DERIVED checked functions (Source64.v, regenerated from clang's AST of the current
+   civil_time_detail.h on every run): operator+ and difference meet the ordinal spec *)
+Theorem src64_plus_meets_spec : forall tag f n, (tag <= 5)%nat ->
+  valid_fields f = true -> align_spec tag f = f -> int64 (fy f) -> int64 n ->
+  int64 (fy (of_ord_spec tag (ord_spec tag f + n))) ->
+  s64_plus tag f n = OK (of_ord_spec tag (ord_spec tag f + n)).
+Proof. exact src64_plus_meets_spec_lemma. Qed.
+Print Assumptions src64_plus_meets_spec.
+
+Theorem src64_difference_meets_spec : forall tag f1 f2, (tag <= 5)%nat ->
+  valid_fields f1 = true -> valid_fields f2 = true -> align_spec tag f1 = f1 -> align_spec tag f2 = f2 ->
+  int64 (fy f1) -> int64 (fy f2) ->
+  int64 (ord_spec tag f1 - ord_spec tag f2) ->
+  s64_difference tag f1 f2 = OK (ord_spec tag f1 - ord_spec tag f2).
+Proof. exact src64_difference_meets_spec_lemma. Qed.
+Print Assumptions src64_difference_meets_spec.
+
+Theorem src64_tie_day_difference y1 m1 d1 y2 m2 d2 r :
+  -128 <= m1 <= 127 -> -128 <= d1 <= 127 -> -128 <= m2 <= 127 -> -128 <= d2 <= 127 ->
+  day_difference64 y1 m1 d1 y2 m2 d2 = OK r -> s64_day_difference y1 m1 d1 y2 m2 d2 = OK r.
+Proof. exact (s64_day_difference_tie y1 m1 d1 y2 m2 d2 r). Qed.
+Print Assumptions src64_tie_day_difference.
+
